@@ -4,6 +4,7 @@
    correct rounding in both directions is the identity; this sweep FAILED at p = 54 before the fix to repr_dps.
    (2) when the mantissa fits in the conversion precision (bc <= bitprec), the decimal digit integer produced by
    to_digits_exp is exactly floor(x * 10^fixdps): nothing is lost before the half-up rounding of to_str.
+   (3),(4) below: the decimal rounding step.
    Not proved: nearest-ness when bc > bitprec is false (known finding C08-nstr-long-mantissa). *)
 From Coq Require Import ZArith List.
 Import ListNotations.
@@ -21,6 +22,32 @@ Theorem C08_to_digits_exact : forall man exp bc bitprec fixdps,
 Proof. exact to_digits_exact. Qed.
 Print Assumptions C08_to_digits_exact.
 
+(* (3) the decimal rounding step: the digit list of sd is its base-10 expansion (dval), and keeping dps of its L digits is
+   round-half-up of sd / 10^(L-dps), a carry out of the top digit moving the exponent; (4) with (2): the printed digits are
+   within half a unit of the last printed place (plus one unit of the last place of sd) of the exact x * 10^fixdps. *)
+From MP Require Import Proofs.StrRoundDigits.
+Theorem C08_dec_digits_expansion : forall n, 0 <= n -> Forall digit (dec_digits n) /\ dval (dec_digits n) = n.
+Proof. exact dec_digits_spec. Qed.
+Theorem C08_round_digits : forall sd dps e, 0 < sd -> 0 < dps ->
+  let L := zlen (dec_digits sd) in
+  let '(dg, e') := round_digits sd dps e in
+  Forall digit dg /\
+  (L <= dps -> dval dg = sd /\ e' = e) /\
+  (dps < L -> zlen dg = dps /\ (e' = e \/ e' = e + 1) /\
+              dval dg * 10 ^ (e' - e) = half_up sd (10 ^ (L - dps))).
+Proof. exact round_digits_spec. Qed.
+Print Assumptions C08_round_digits.
+Theorem C08_digits_near : forall man exp bc bitprec fixdps dps,
+  0 < man -> bc = bitcount man -> bc <= bitprec -> 0 <= fixdps -> exp < 0 -> 0 <= bitprec - exp - bc -> 0 < dps ->
+  let '(sd, ex) := to_digits_core man exp bc bitprec fixdps in
+  0 < sd -> dps < zlen (dec_digits sd) ->
+  let u := 10 ^ (zlen (dec_digits sd) - dps) in
+  let '(dg, e') := round_digits sd dps ex in
+  2 * Z.abs (dval dg * 10 ^ (e' - ex) * u * 2 ^ (- exp) - man * 10 ^ fixdps) <= (u + 2) * 2 ^ (- exp).
+Proof. exact to_str_digits_near. Qed.
+Print Assumptions C08_digits_near.
+Example C08_round_carry : round_digits 99960 3 1 = ([1; 0; 0], 2).     (* 9.996 at 3 digits -> 1.00e+1 *)
+Proof. vm_compute. reflexivity. Qed.
 (* non-vacuity / behaviour samples of the printing model (character codes): 1.5 -> "1.5", 255 at 2 digits -> "2.6e+2" *)
 Example C08_sample : to_str (Mpf 0 3 (-1) 2) 15 true (-5) 15 false 69 20 = [49; 46; 53].
 Proof. vm_compute. reflexivity. Qed.
